@@ -147,6 +147,12 @@ def events_for(rng, thorough):
         T[:3, :3] = R
         T[:3, 3] = t
         return T
+    # a UNIT dual quaternion (of a rigid motion) times a GENERAL dual quaternion: still the plain dual-number product
+    for (q1, t1) in mots:
+        K1 = 2.0 * math.sqrt(sum(c * c for c in q1))
+        for bb in r8[:4] + b8[:3]:
+            yield "udq_dq_mul", {"q1": q1, "t1": t1, "d1": 1, "b": bb}, 1.0, \
+                (lambda q1=q1, t1=t1, bb=bb, K1=K1: K1 * dvec(UnitDualQuaternion(SE3(T_of(q1, t1))) * D(bb))), "UnitDualQuaternion*DualQuaternion"
     for (q1, t1) in mots:
         for (q2, t2) in mots:
             K = math.sqrt(sum(c * c for c in q1) * sum(c * c for c in q2))
